@@ -693,16 +693,13 @@ Fixpoint skip_ws (l : bytes) : bytes :=
 
 Definition assign_start (l : bytes) : bool :=
   match l with
-  | 61 :: c :: _ => negb ((c =? 61) || (c =? 126) || (c =? 62))
-  | [61] => true
-  | 58 :: 61 :: _ => true
-  | 43 :: 61 :: _ => true
-  | 45 :: 61 :: _ => true
-  | 47 :: 61 :: _ => true
-  | 47 :: 35 :: _ => true
-  | 42 :: 61 :: _ => true
-  | 60 :: 126 :: _ => true
-  | _ => false
+  | [] => false
+  | c :: r =>
+    let d := hd0 r in
+    ((c =? 61) && negb ((d =? 61) || (d =? 126) || (d =? 62))) ||     (* =  but not == =~ => *)
+    (((c =? 58) || (c =? 43) || (c =? 45) || (c =? 47) || (c =? 42)) && (d =? 61)) ||  (* := += -= /= *= *)
+    ((c =? 47) && (d =? 35)) ||                                       (* /# comment: not modelled *)
+    ((c =? 60) && (d =? 126))                                         (* <~ *)
   end.
 
 Definition expr_rejected (src : bytes) : bool :=
